@@ -362,11 +362,21 @@ func (n *Node) RawQuery(sql string, includeMem bool, timeout time.Duration) ([]R
 }
 
 // DecodeRaw decodes raw rows of a SELECT * probe into cells.
-func (n *Node) DecodeRaw(raw []RawRow) []Row {
+func (n *Node) DecodeRaw(raw []RawRow) []Row { return n.DecodeRawFields(raw, nil) }
+
+// DecodeRawFields decodes only the named specification fields (nil = all).
+func (n *Node) DecodeRawFields(raw []RawRow, only []string) []Row {
+	want := map[string]bool{}
+	for _, f := range only {
+		want[f] = true
+	}
 	var rows []Row
 	for _, r := range raw {
 		for name, v := range r.Vals {
 			f := fieldID(name)
+			if len(want) > 0 && !want[f] {
+				continue
+			}
 			if f == "p" {
 				if v != 0 {
 					rows = append(rows, Row{r.Key, r.Per, f, 0, countOf(v)})
